@@ -19,7 +19,7 @@ EXPLANATION = (
     "rainfall_partition's returns with no redefinition in between, rainfall_partition's rain argument is the "
     "precipitation of the day's weather row, and the irrigation depth / efficiency arguments are irrigation's return and "
     "IrrMngt.AppEff. Together: Infl_col + Runoff_col = P + Irr*AppEff/100 over the reals (assumption A-2). C02.b: with "
-    "growing_season=False the irrigation term is absent. NOT decided: non-negativity / upper bound of runoff, sign of "
+    "growing_season=False the irrigation term is absent. C02.e (necessary for the runoff bound): every depth <-> water-content conversion of infiltration uses the thickness of the compartment whose content the statement handles (1000*dz[k] directly, through an alias, or through a local holding the thickness in mm) - water backed up to the surface is runoff, and with another compartment's thickness more (or less) runs off than was taken out. NOT decided: non-negativity / upper bound of runoff, sign of "
     "infiltration on bund removal, zero-in => zero-out (numeric).")
 
 
@@ -305,6 +305,11 @@ def run(chk, prog, tier):
                 pass
     # ---- C02.c surface-water bookkeeping templates inside infiltration
     surface_bookkeeping(chk, prog, inf, step, c_inf, rp_pos, names_rp)
+    # ---- C02.e thickness agreement inside infiltration (T-THICK, shared with C01.f): the water backed up to the surface becomes runoff; it
+    # is the water actually taken out of a compartment only if the content difference is converted with that compartment's own thickness
+    from . import _thick
+    n_thick = _thick.scan(chk, prog, "C02.e", [inf.key])
+    chk.floor("C02.e", n_thick, 7, "depth <-> water-content conversion sites of infiltration")
     # ---- (3) no redefinition between rainfall_partition and infiltration is implied by the atoms being the call atoms
     for i, f in sorted(rp_pos.items()):
         chk.ok("C02.a", STEP_FN, f"infiltration.{f} <- rainfall_partition[{i}]", "same value, no redefinition in between")
